@@ -117,6 +117,7 @@ func newEval(c *core.Ctx) *eval.Evaluator {
 	}
 	ev.VarInit = c.VarInit
 	ev.Adapt = func(fn *types.Func, args []eval.Value) ([]eval.Value, error) { return adaptArgs(c, fn, args) }
+	installBytesBuffer(ev)
 	return ev
 }
 
